@@ -14,6 +14,7 @@ import (
 	"github.com/hashicorp/raft"
 	"github.com/rqlite/rqlite/v10/db"
 	"github.com/rqlite/rqlite/v10/internal/fsutil"
+	"github.com/rqlite/rqlite/v10/internal/vhook"
 	"github.com/rqlite/rqlite/v10/snapshot/plan"
 )
 
@@ -81,6 +82,7 @@ func Upgrade7To8(old, new string, logger *log.Logger) (retErr error) {
 	if err := os.MkdirAll(newTmpDir, 0755); err != nil {
 		return fmt.Errorf("failed to create temporary snapshot directory %s: %s", newTmpDir, err)
 	}
+	vhook.Point("upgrade78.after_mkdir_tmp")
 
 	oldMeta, err := getNewest7Snapshot(old)
 	if err != nil {
@@ -100,6 +102,7 @@ func Upgrade7To8(old, new string, logger *log.Logger) (retErr error) {
 	if err := writeMeta(newSnapshotPath, oldMeta); err != nil {
 		return fmt.Errorf("failed to write new snapshot meta file to %s: %s", newSnapshotPath, err)
 	}
+	vhook.Point("upgrade78.after_write_meta")
 
 	// Ensure all file handles are closed before any directory is renamed or removed.
 	if err := func() error {
@@ -146,6 +149,7 @@ func Upgrade7To8(old, new string, logger *log.Logger) (retErr error) {
 			if !db.IsValidSQLiteFile(newSqlitePath) {
 				return fmt.Errorf("migrated SQLite file %s is not valid", newSqlitePath)
 			}
+			vhook.Point("upgrade78.after_copy_db")
 		}
 
 		// Ensure database file exists and convert to WAL mode.
@@ -156,11 +160,13 @@ func Upgrade7To8(old, new string, logger *log.Logger) (retErr error) {
 	}(); err != nil {
 		return err
 	}
+	vhook.Point("upgrade78.after_wal_mode")
 
 	// Move the upgraded snapshot directory into place.
 	if err := os.Rename(newTmpDir, new); err != nil {
 		return fmt.Errorf("failed to move temporary snapshot directory %s to %s: %s", newTmpDir, new, err)
 	}
+	vhook.Point("upgrade78.after_rename")
 	if err := fsutil.SyncDirParentMaybe(new); err != nil {
 		return fmt.Errorf("failed to sync parent directory of new snapshot directory %s: %s", new, err)
 	}
@@ -169,6 +175,7 @@ func Upgrade7To8(old, new string, logger *log.Logger) (retErr error) {
 	if err := fsutil.RemoveDirSync(old); err != nil {
 		return fmt.Errorf("failed to remove old snapshot directory %s: %s", old, err)
 	}
+	vhook.Point("upgrade78.after_remove_old")
 	logger.Printf("upgraded v7 snapshot directory %s to %s", old, new)
 	stats.Add(upgradeOk, 1)
 
@@ -207,6 +214,7 @@ func Upgrade8To10(old, new string, logger *log.Logger) (retErr error) {
 		if err := p.Execute(plan.NewExecutor()); err != nil {
 			return fmt.Errorf("executing resumed upgrade plan: %w", err)
 		}
+		vhook.Point("upgrade810.resume.before_plan_remove")
 		os.Remove(planPath)
 		logger.Printf("resumed and completed upgrade of v8 snapshot directory to %s", new)
 		stats.Add(upgradeOk, 1)
@@ -274,11 +282,13 @@ func Upgrade8To10(old, new string, logger *log.Logger) (retErr error) {
 	if err := plan.WriteToFile(p, planPath); err != nil {
 		return fmt.Errorf("writing upgrade plan: %w", err)
 	}
+	vhook.Point("upgrade810.after_plan_write")
 
 	// Execute the plan.
 	if err := p.Execute(plan.NewExecutor()); err != nil {
 		return fmt.Errorf("executing upgrade plan: %w", err)
 	}
+	vhook.Point("upgrade810.before_plan_remove")
 
 	// Clean up the plan file.
 	if err := os.Remove(planPath); err != nil {
